@@ -106,6 +106,15 @@ func (fc *FnCtx) doCall(res ssa.Value, c *ssa.CallCommon, in ssa.Instruction) {
 		return
 	}
 	// dynamic call through a function value: user code
+	if fc.con != nil && fc.con.Opts["dyncalls-pure"] != "" {
+		fc.e.assume("%s: calls through function values (record constructors of the TypeToRR table) only allocate", fc.name)
+		rv := freshRes()
+		if len(rv.C) > 0 {
+			fc.assumeFreshRefs(rv)
+		}
+		setRes(rv)
+		return
+	}
 	fc.havocCall(&fc.cur, map[string]bool{"*": true})
 	fc.noteUncontracted("dynamic call at " + fc.e.fset.Position(pos).String())
 	setRes(freshRes())
